@@ -98,6 +98,76 @@ macro_rules! marked_family {
 marked_family!(p2_family, P2, P2, "p2:field-without-animate-attribute", "P2 { /// doc #[animate] a: f32, #[allow(dead_code)] #[animate] k: i32, /// doc z: f32, w: u8 }");
 marked_family!(r3_family, R3Proxy, R3, "remote-proxy:field-without-animate-attribute", "#[animate(remote = \"R3\")] R3Proxy { #[animate] a: f32, #[animate] k: i32, z: f32, w: u8 }");
 
+/// Animator histories: after every operation of every history (depth <= 4; advances 1/4 and 1; three animated
+/// states X, Y, U2 and the un-animated U1) the properties for which the state the animator is in AFTER the operation
+/// has no keyframe (all of them if it has no timeline) keep the bits they had before the operation - they carry
+/// whatever earlier states left in them.
+fn animator_family(acc: &mut Acc) {
+    use crate::anim::{apply, pool, Config, Op};
+    let np = pool(0).len() - 1;
+    let ops = [Op::Adv(0.25), Op::Adv(1.0), Op::Set(S4::X), Op::Set(S4::Y), Op::Set(S4::U1), Op::Set(S4::U2)];
+    let animates = |specs: &[TlSpec]| -> (bool, bool, bool) { (specs.iter().any(|s| s.kfs.iter().any(|k| k.a.is_some())), specs.iter().any(|s| s.kfs.iter().any(|k| k.k.is_some())), specs.iter().any(|s| s.kfs.iter().any(|k| k.d.is_some()))) };
+    let r = par_fold(
+        np,
+        Acc::default,
+        |xi, acc| {
+            for step in [1usize, 4, 9] {
+                let (yi, zi) = ((xi + step) % np, (xi + 2 * step + 1) % np);
+                let cfg = Config::with_third(xi, yi, (xi % 2) as u8, Some(zi));
+                let per_state = |s: S4| match s {
+                    S4::X => animates(&cfg.specs[0]),
+                    S4::Y => animates(&cfg.specs[1]),
+                    S4::U2 => animates(&cfg.zspecs),
+                    S4::U1 => (false, false, false),
+                };
+                let mut code = [0usize; 4];
+                'outer: loop {
+                    let mut a = cfg.build(S4::X);
+                    acc.timelines += 1;
+                    for (i, &oi) in code.iter().enumerate() {
+                        let before = a.current_values().clone();
+                        apply(&mut a, &ops[oi]);
+                        acc.evals += 1;
+                        let after = a.current_values().clone();
+                        let (an_a, an_k, an_d) = per_state(*a.current_state());
+                        acc.field_checks += 5;
+                        let bad = (!an_a && after.a.to_bits() != before.a.to_bits()) || (!an_k && after.k != before.k) || (!an_d && after.d.to_bits() != before.d.to_bits()) || after.u.to_bits() != before.u.to_bits() || after.z.to_bits() != before.z.to_bits();
+                        if bad {
+                            let h: Vec<String> = code[..=i].iter().map(|&o| ops[o].name()).collect();
+                            acc.sink.add("animator:property-not-animated-by-the-current-state-changed", (9u64 << 56) | (xi as u64) << 32 | i as u64, || {
+                                (format!("after [{}]: state {:?} animates (a,k,d) = {:?}, yet values went {:?} -> {:?} | X={} Y={} U2={}", h.join(", "), a.current_state(), (an_a, an_k, an_d), before, after, cfg.names[0], cfg.names[1], pool(0)[zi].0), json!({"config": cfg.to_json(), "history": h}))
+                            });
+                            break;
+                        }
+                    }
+                    let mut p = 3;
+                    loop {
+                        code[p] += 1;
+                        if code[p] < ops.len() {
+                            break;
+                        }
+                        code[p] = 0;
+                        if p == 0 {
+                            break 'outer;
+                        }
+                        p -= 1;
+                    }
+                }
+            }
+        },
+        |a, b| {
+            a.sink.merge(b.sink);
+            a.timelines += b.timelines;
+            a.evals += b.evals;
+            a.field_checks += b.field_checks;
+        },
+    );
+    acc.sink.merge(r.sink);
+    acc.timelines += r.timelines;
+    acc.evals += r.evals;
+    acc.field_checks += r.field_checks;
+}
+
 pub fn run(run: Run) -> ! {
     let nmax = if run.is_thorough() { 4 } else { 3 };
     let thetas = theta();
@@ -188,6 +258,7 @@ pub fn run(run: Run) -> ! {
     acc.field_checks += macc.field_checks;
     p2_family(&mut acc);
     r3_family(&mut acc);
+    animator_family(&mut acc);
     // empty merged list
     let empty: MergedTimeline<PTimeline> = MergedTimeline::of(Vec::<PTimeline>::new());
     for init in &tg {
@@ -204,10 +275,10 @@ pub fn run(run: Run) -> ! {
     cov.insert("traces_validated_against_impl".into(), json!(acc.evals));
     cov.insert("evaluations".into(), json!(acc.evals));
     cov.insert("distinct_nontrivial".into(), json!(acc.field_checks));
-    cov.insert("rule".into(), json!(format!("C01 keyframe space up to {nmax} keyframes x 6 timings x {{plain, start_with}} x 3 prior target contents (NaN-payload sentinels, ordinary values, Default) x time grid (all phases); plus all merged pairs T(<=2) x T(<=1) x 3 timing pairs, the empty merged list, and a second struct P2 (doc comments / #[allow] before the #[animate] markers, Lerp-able un-marked fields) and a remote proxy R3Proxy -> R3 with markers on some fields only, both driven through keyframe_from and setters; oracle: every field that no component keyframes (incl. the never-keyframed #[animate] field u, the f64 field d and the non-#[animate] field z; the whole struct for an empty keyframe set) is bit-identical after update; non-trivial = individual (evaluation, field) bit comparisons")));
+    cov.insert("rule".into(), json!(format!("C01 keyframe space up to {nmax} keyframes x 6 timings x {{plain, start_with}} x 3 prior target contents (NaN-payload sentinels, ordinary values, Default) x time grid (all phases); plus all merged pairs T(<=2) x T(<=1) x 3 timing pairs, the empty merged list, and a second struct P2 (doc comments / #[allow] before the #[animate] markers, Lerp-able un-marked fields) and a remote proxy R3Proxy -> R3 with markers on some fields only, both driven through keyframe_from and setters; plus animator histories (every pool shape as X with three partner assignments for Y and U2, all histories to depth 4: a property the current state does not keyframe keeps its bits across every operation); oracle: every field that no component keyframes (incl. the never-keyframed #[animate] field u, the f64 field d and the non-#[animate] field z; the whole struct for an empty keyframe set) is bit-identical after update; non-trivial = individual (evaluation, field) bit comparisons")));
     cov.insert("exhaustive".into(), json!(true));
     cov.insert("samples".into(), json!(acc.samples));
-    run.finish(acc.sink, cov, vec!["the full family of struct shapes is C17's (every compiled shape there asserts sentinels on its un-animated fields); here: P, P2 and the remote proxy R3Proxy".into(), "animator histories are covered by the E2 explorer (C04-C07 run the same untouched-field oracle)".into()])
+    run.finish(acc.sink, cov, vec!["the full family of struct shapes is C17's (every compiled shape there asserts sentinels on its un-animated fields); here: P, P2 and the remote proxy R3Proxy".into(), "longer animator histories are the E2 explorer's (C04-C07 run the same untouched-field oracle to depth 6-7)".into()])
 }
 
 pub fn replay(case: &Value) -> bool {
